@@ -9,8 +9,8 @@ from engine import AnalysisError
 from engine.cfg import stmt_of
 from engine.dataflow import target_names, assigned_value
 from engine.srcmodel import walk_shallow, norm, parent
-from engine.util import call_name, contains, in_body, fstring_template
-from ._c01_util import (loads, load_ids, read_reserved, check_vname_is_applied, key_templates, literal_pieces,
+from engine.util import call_name, contains, in_body
+from ._c01_util import (loads, load_ids, read_reserved, key_templates, literal_pieces,
                         dict_key_exprs, template_holes)
 from .c01 import r4_fresh_name_generator, _bind_args
 
@@ -383,11 +383,23 @@ def _callee_keys(ctx, f, dict_name: str) -> List[Tuple[ast.AST, ast.stmt]]:
 
 def r3_reserved_parts_cover_generated_names(ctx, rid):
     reserved = read_reserved(ctx, rid)
-    af, acall = check_vname_is_applied(ctx, rid)
-    ctx.ok(rid, af, acall, f"every declared variable name passes check_vname, which raises for {len(reserved.names)} reserved names and "
-                           f"{len(reserved.parts)} reserved sub-strings {reserved.parts}", {"reserved_parts": reserved.parts,
-                                                                                           "reserved_names": sorted(reserved.names)},
-           label="check_vname gate")
+    cv = reserved.f
+    if reserved.applied_call is not None:
+        ctx.ok(rid, reserved.applied_in, reserved.applied_call, "every declared variable name of an operator template is passed "
+               "through check_vname", label="check_vname is applied", nontrivial=False)
+    else:
+        ctx.violation(rid, reserved.applied_in, reserved.applied_in.node,
+                      "OperatorTemplate.apply no longer passes the declared variable names through check_vname: the reserved names "
+                      "and sub-strings protect nothing, any generated name can be declared by the user", label="check_vname is applied")
+    for what, test, ok_, table in (("names", reserved.names_test, reserved.names_raise, sorted(reserved.raw_names)),
+                                   ("sub-strings", reserved.parts_test, reserved.parts_raise, reserved.raw_parts)):
+        if ok_:
+            ctx.ok(rid, cv, test, f"check_vname raises for the {len(table)} reserved {what}", {"reserved_" + what: table},
+                   label=f"reserved {what} are refused")
+        else:
+            ctx.violation(rid, cv, test, f"check_vname finds a reserved {what[:-1]} in a declared variable name (`{norm(test)}`) but does "
+                                         f"not raise: the user can declare variables that the compiler's generated names overwrite",
+                          {"reserved_" + what: table}, label=f"reserved {what} are refused")
     # ---- (A) names injected into operators the user declared
     sites = [s for s in analysed_sites(ctx) if s.kind == "variables"]
     seen = set()
